@@ -1,5 +1,7 @@
 import XixiKV.Proofs.ConcBatchExec
 import XixiKV.Proofs.ConcBatchWindow
+import XixiKV.Proofs.ConcBatchSafe
+import XixiKV.Proofs.ConcBatchHist
 import XixiKV.Model.LocksetBatch
 /-!
 # C08 / C05 / C09 with batches: a committed batch is ONE atomic multi-key write for every
@@ -183,6 +185,39 @@ example : Reachable .asIs doneState ∧ BenignFlushes doneState.hist :=
 /-- and by `aheadState`, where the waiter clause is not vacuous -/
 example : Reachable .asIs aheadState ∧ BenignFlushes aheadState.hist ∧ aheadState.waiters ≠ [] :=
   ⟨aheadState_reachable, by decide +kernel, by decide +kernel⟩
+
+/-- Completed operations.  Whenever a return event `ret t r` is in the history of a reachable state
+(premise as above), the same thread has — before it, with none of its own call / linearization /
+return events in between — a linearization event `lin t op r` with the SAME result, preceded by
+the invocation `inv t op`; and `r` is the result the sequential specification (batches atomic)
+gives for `op` in the state `m` obtained by running all earlier linearization events in order.
+For a `Get` that waited for a batch, the linearization event is the one emitted by the commit. -/
+theorem C08B_completed_ops {sh : Shape} {g : G} (hr : Reachable sh g)
+    (hok : sh.getIdxGated = true ∨ BenignFlushes g.hist) {t : Tid} {r : Res}
+    {h2 h1 : List Ev} (hh : g.hist = h2 ++ .ret t r :: h1) :
+    ∃ op hl hm h0 m,
+      h1 = hl ++ .lin t op r :: (hm ++ .inv t op :: h0) ∧
+      (∀ e ∈ hl, ownEv t e = false) ∧ (∀ e ∈ hm, ownEv t e = false) ∧
+      specRun (hm ++ .inv t op :: h0) = some m ∧ (specStep m op).2 = r :=
+  completed_ops (C08B_linearizable hr hok).1 hh
+
+/-- the hypothesis is met: `doneState`'s history contains the return of the waiting `Get` with the
+batch's value -/
+example : ∃ h2 h1, doneState.hist = h2 ++ .ret 2 (.val (some 20)) :: h1 :=
+  List.append_of_mem (by decide +kernel)
+
+/-- A static, input-level sufficient condition for the current tree (any shape): if every batch
+invoked so far consists of `Put`s of pairwise distinct keys, all flushes are benign and the
+history is linearizable. -/
+theorem C08B_linearizable_putonly {sh : Shape} {g : G} (hr : Reachable sh g)
+    (hs : SafeBatches g.hist) :
+    BenignFlushes g.hist ∧ Linearizable g.hist ∧ specRun g.hist = some (specMap g) := by
+  have hb := (safe_inv hr hs).1
+  have h := C08B_linearizable hr (.inr hb)
+  exact ⟨hb, h.1, h.2.1⟩
+
+example : Reachable .asIs doneState ∧ SafeBatches doneState.hist :=
+  ⟨doneState_reachable, by decide +kernel⟩
 
 /-! ## C05: the partial flush is unobservable -/
 
